@@ -390,6 +390,10 @@ class Engine:
             finally:
                 self.spec_mode -= 1
             self.assumptions.add("assumed in %s: %s" % (contract.qualname, cl if isinstance(cl, str) else getattr(cl, "__name__", "clause")))
+        for fact in contract.extra.get("uses_lemmas", []):
+            # statements of lemmas that are discharged as L-obligations of the same contract module: hypotheses here
+            st.assume(fact(self, st))
+            self.assumptions.add("%s uses %s, discharged separately as lemma obligations (induction principle meta-level)" % (contract.qualname, fact.__name__))
         if contract.extra.get("yields") is not None:
             # a generator: the sequence of values yielded so far is the ghost list __yielded__
             ys = contract.extra["yields"]
@@ -467,6 +471,8 @@ class Engine:
         if flow[0] in (Flow.BREAK, Flow.CONTINUE):
             raise Unsupported("break/continue outside loop")
         result = flow[1] if flow[0] == Flow.RETURN else NONE
+        if result is NONE and isinstance(c.returns, (REF, OPT, MAYBE)):
+            result = self.coerce(result, c.returns, st)        # `return None` of a function declared to return an object / optional value
         st.env["result"] = result
         for m in c.mutates:
             st.env["new_" + m] = st.env[m]        # container parameters mutated in place: their final value, as the caller sees it
@@ -746,6 +752,7 @@ class Engine:
             return VList(base.elem, z3.Store(base.arr, idx, to_z3(v, base.elem)), base.len, base.is_str)
         if isinstance(base, VDict):
             kz = to_z3(key, base.key)
+            v = self.coerce(v, base.val, st)         # e.g. an empty dict()/{} stored as a value of a dict of dicts
             return VDict(base.key, base.val, z3.Store(base.dom, kz, True), z3.Store(base.map, kz, to_z3(v, base.val)))
         raise Unsupported("item store on %r" % (base,))
 
@@ -1199,6 +1206,10 @@ class Engine:
             if seq is NotImplemented:
                 seq = self.load_field(st, it, self.reg.iter_fields[it.cls])
             return self.iter_protocol(seq, st)
+        if isinstance(it, VDictItems) and getattr(self, "concrete", False) and hasattr(it.d, "concrete_keys"):
+            d = it.d
+            items = [VTuple([k, from_z3(z3.simplify(d.map[to_z3(k, d.key)]), d.val)]) for k in d.concrete_keys]
+            return z3.IntVal(len(items)), (lambda j: items[z3.simplify(j).as_long()])
         if isinstance(it, VDictItems):
             d = it.d
             n, getter = self.iter_protocol(VSet(d.key, d.dom), st)
@@ -1209,8 +1220,15 @@ class Engine:
             items = list(it.items)
             return z3.IntVal(len(items)), (lambda j: items[z3.simplify(j).as_long()])
         if isinstance(it, VSet):
-            # a (finite) set is iterated in SOME order without repetition: an enumeration `ord` of its elements, unknown to the proof
+            # a (finite) set is iterated in SOME order without repetition: an enumeration `ord` of its elements, unknown to the proof.  Iterating the very
+            # same (unmodified) set value again gives the same order, as in CPython: the enumeration is cached per set expression along the path.
             zs = it.key.z3sort()
+            cache = st.env.setdefault("__set_enums__", {})
+            hit = cache.get(it.dom.get_id())
+            if hit is not None and hit[3].dom.eq(it.dom):
+                ordr, pos, n, _ = hit
+                self.last_set_iter = hit
+                return n, (lambda j: from_z3(ordr[j], it.key))
             n = z3.Int(fresh_name("setlen"))
             ordr = z3.Array(fresh_name("setord"), z3.IntSort(), zs)
             pos = z3.Function(fresh_name("setpos"), zs, z3.IntSort())
@@ -1218,8 +1236,11 @@ class Engine:
             k = z3.Const(fresh_name("k"), zs)
             st.assume(n >= 0)
             st.assume(z3.ForAll([i], z3.Implies(z3.And(i >= 0, i < n), z3.And(it.dom[ordr[i]], pos(ordr[i]) == i)), patterns=[ordr[i]]))
-            st.assume(z3.ForAll([k], z3.Implies(it.dom[k], z3.And(pos(k) >= 0, pos(k) < n, ordr[pos(k)] == k)), patterns=[pos(k)]))
+            st.assume(forall_pat([k], z3.Implies(it.dom[k], z3.And(pos(k) >= 0, pos(k) < n, ordr[pos(k)] == k)), [pos(k), it.dom[k]]))
             self.assumptions.add("sets are finite and iterated once per element in an unspecified order")
+            cache = dict(cache)
+            cache[it.dom.get_id()] = (ordr, pos, n, it)
+            st.env["__set_enums__"] = cache
             self.last_set_iter = (ordr, pos, n, it)
             return n, (lambda j: from_z3(ordr[j], it.key))
         return None, None
@@ -1362,6 +1383,25 @@ class Engine:
     def expr_Set(self, node, st):
         # a set display of constants/tuples: kept as the collection of its items (membership and iteration)
         return VTuple([self.eval(e, st) for e in node.elts])
+
+    def expr_Lambda(self, node, st):
+        return VLambda(node)
+
+    def apply_lambda(self, lam, args, st):
+        a = lam.node.args
+        if a.vararg or a.kwarg or a.kwonlyargs or a.defaults or len(a.args) != len(args):
+            raise Unsupported("lambda signature")
+        saved = {p.arg: st.env.get(p.arg, self) for p in a.args}
+        for p, v in zip(a.args, args):
+            st.env[p.arg] = v
+        try:
+            return self.eval(lam.node.body, st)
+        finally:
+            for k, v in saved.items():
+                if v is self:
+                    st.env.pop(k, None)
+                else:
+                    st.env[k] = v
 
     def expr_Dict(self, node, st):
         items = []
@@ -1520,7 +1560,21 @@ class Engine:
         raise Unsupported("binop %s" % type(op).__name__)
 
     def int_bitop(self, op, az, bz, st):
-        raise Unsupported("bit operation on mathematical integers")
+        """&, |, ^ on Python ints: exact on operands in {0, 1} (flags and bits, the only use in the functions under contract); for any other operands the
+        result is an unspecified integer -- an under-specification (true facts only), so clauses that would need more stay undecided"""
+        if not isinstance(op, (ast.BitAnd, ast.BitOr, ast.BitXor)):
+            raise Unsupported("shift on mathematical integers")
+        a_, b_ = z3.simplify(az), z3.simplify(bz)
+        if z3.is_int_value(a_) and z3.is_int_value(b_):
+            x, y = a_.as_long(), b_.as_long()
+            return z3.IntVal(x & y if isinstance(op, ast.BitAnd) else (x | y if isinstance(op, ast.BitOr) else x ^ y))
+        name = {ast.BitAnd: "PYAND", ast.BitOr: "PYOR", ast.BitXor: "PYXOR"}[type(op)]
+        f = z3.Function(name, z3.IntSort(), z3.IntSort(), z3.IntSort())
+        r = f(az, bz)
+        bits = z3.And(0 <= az, az <= 1, 0 <= bz, bz <= 1)
+        exact = {ast.BitAnd: az * bz, ast.BitOr: z3.If(az + bz >= 1, 1, 0), ast.BitXor: z3.If(az == bz, 0, 1)}[type(op)]
+        st.assume(z3.Implies(bits, r == exact))
+        return r
 
     def bv_binop(self, op, az, bz, st):
         raise Unsupported("bit-vector arithmetic outside the clang front end")
@@ -1958,6 +2012,9 @@ class Engine:
         pre.env = dict(call_st.env)
         pre.heap = dict(st.heap)
         pre.alloc = dict(st.alloc)
+        for cls, a in list(st.alloc.items()):
+            if not cls.startswith("pre:"):
+                pre.alloc["pre:" + cls] = a      # the callee's "on entry" allocation counters are those of the call, not of the caller's entry
         pre.pc = st.pc
         # havoc
         for k in cc.modifies:
